@@ -29,9 +29,20 @@ Case recipes (JSON), values always in the real domain ("inf" for infinity):
   {"fn":"pt_solve","sr":..,"dtype":..,"type":tau,"a":tensor recipe,"b":tensor recipe}
   {"fn":"multi_solve"|"multi_mv","sr":..,"transpose":bool,"shapes":[[name,[dims]],..],
    "a":[[x,y,tensor recipe],..],"b":[[x,tensor recipe],..]}          (insertion order = list order)
+An optional "family" entry names the generator family of a case (informational; ignored when the case is run).
 Tensor recipes are those of vf.bounded.gen_pt with real-domain data/default (dtype float64).
 Patterned operands are well-typed (see props/c07_bounded.py): rows and columns of a and the rows
 of b conform to one index type.
+
+Input families added after seeded round 3 (same runners, same oracle):
+  growth<k> (pt_solve)  index types that are products of sums of units ("tuples of digits"); the factors of the axes of a
+                        and b are constants (one-hot) or possibly shared physical axes; (a, b) pairs are stratified by the
+                        number k of steps in which supp(b + a b + a^2 b + ...) keeps growing (computed on bit masks), so
+                        the pattern fixpoint loop of PatternedTensor.solve runs 0, 1, 2, 3, ... rounds and the projection
+                        of a and b onto the final pattern is non-trivial.
+  order (multi_solve / multi_mv)  3-5 block indices, block graphs with several components / sinks / sources / indices
+                        without any block, every row as the row of the last-inserted block (the root of the DFS of
+                        _order_nonterminals), seeded order of the shapes dict, b present on every index.
 """
 from __future__ import annotations
 import hashlib, itertools, json, math, random, time, warnings
@@ -789,6 +800,293 @@ def gen_multi_cases(ctx: Ctx):
                                        "a": a, "b": b}
 
 
+# ============================================================================= family: solution patterns that grow in steps
+# PatternedTensor.solve computes the sparsity pattern of the solution by iterating e := lgg(e, a*e) from the pattern of b
+# until nothing changes.  The patterns of vf.bounded.gen_pt for an (n,n) matrix with n <= 4 are closed after at most one
+# step, so the iteration itself (its stopping test, the projection of a and b onto the final pattern) was not exercised.
+# This family enumerates *relational* patterns over index types that are products of small sums ("tuples of digits"):
+# every factor ("slot") of the row axis and of the column axis of a, and of the row axis of b, is either a constant
+# (one-hot SumAxis(i, unit, d-1-i)) or a variable (a physical axis), and variables may be shared between slots of equal
+# size (within one axis: diagonal; between the row and the column axis: "copy"/"shift"/"swap" relations).  For each
+# (a, b) pair the number of steps in which the support of b + a b + a^2 b + ... keeps growing is computed on plain
+# bit masks (independent of fggs) and the selection prefers pairs that grow for two or more steps.
+def digits_type(dims):
+    return ["*", [["+", [["n", 1] for _ in range(d)]] for d in dims]]
+
+
+def slot_labellings(sizes: Sequence[int]) -> List[List[Tuple[str, int]]]:
+    """every labelling of the slots by a constant ('c', i) (i < size of the slot) or a variable ('v', j); variables are
+       numbered in order of first occurrence and shared only between slots of equal size"""
+    out: List[List[Tuple[str, int]]] = []
+    def rec(k, acc, vsizes):
+        if k == len(sizes):
+            out.append(acc); return
+        d = sizes[k]
+        for i in range(d):
+            rec(k + 1, acc + [("c", i)], vsizes)
+        for j, s in enumerate(vsizes):
+            if s == d: rec(k + 1, acc + [("v", j)], vsizes)
+        rec(k + 1, acc + [("v", len(vsizes))], vsizes + [d])
+    rec(0, [], [])
+    return out
+
+
+def _slot_axis(lab, d):
+    return ["+", lab[1], U_, d - 1 - lab[1]] if lab[0] == "c" else ["P", lab[1]]
+
+
+def labelling_pool(sizes, labs) -> List[int]:
+    pool: List[int] = []
+    for d, (k, j) in zip(sizes, labs):
+        if k == "v" and j == len(pool): pool.append(d)
+    return pool
+
+
+def relational_pattern(dims, labs, nrow_axes: int, extra: Sequence[int] = ()) -> Dict[str, Any]:
+    """pattern with `nrow_axes` virtual axes that are products of len(dims) slots each (labelled by `labs`, in order),
+       followed by one dense axis per entry of `extra`"""
+    k = len(dims)
+    sizes = list(dims) * nrow_axes
+    pool = labelling_pool(sizes, labs)
+    vaxes = [["*", [_slot_axis(labs[r * k + i], dims[i]) for i in range(k)]] for r in range(nrow_axes)]
+    for n in extra:
+        if n == 1: vaxes.append(U_)
+        else:
+            vaxes.append(["P", len(pool)]); pool.append(n)
+    return {"pool": pool, "vaxes": vaxes, "storage": "contig"}
+
+
+def _slot_index_sets(dims, labs, nrow_axes):
+    """for every assignment of the variables: the tuple of virtual indices of the nrow_axes product axes"""
+    k = len(dims)
+    sizes = list(dims) * nrow_axes
+    pool = labelling_pool(sizes, labs)
+    out = []
+    for p in itertools.product(*[range(n) for n in pool]):
+        idx = []
+        for r in range(nrow_axes):
+            v = 0
+            for i in range(k):
+                kind, j = labs[r * k + i]
+                v = v * dims[i] + (j if kind == "c" else p[j])
+            idx.append(v)
+        out.append(tuple(idx))
+    return out
+
+
+def growth_steps(arows: Sequence[int], bmask: int) -> int:
+    """number of steps in which supp(b + a b + ... + a^m b) strictly grows; arows[i] = bit mask of the columns backed in
+       row i of a, bmask = bit mask of the rows backed in b (x_i is fed by x_j iff a_ij is backed)"""
+    s, steps = bmask, 0
+    while True:
+        t = s
+        for i, r in enumerate(arows):
+            if r & s: t |= 1 << i
+        if t == s: return steps
+        s = t; steps += 1
+
+
+def a_row_masks(dims, labs) -> List[int]:
+    n = 1
+    for d in dims: n *= d
+    rows = [0] * n
+    for i, j in _slot_index_sets(dims, labs, 2):
+        rows[i] |= 1 << j
+    return rows
+
+
+def b_row_mask(dims, labs) -> int:
+    m = 0
+    for (i,) in _slot_index_sets(dims, labs, 1):
+        m |= 1 << i
+    return m
+
+
+GROWTH_A_POOLS = [[0.25], [0.25, 0.25, 0.5], [0.5, 1.0], [1.0], [0.0, 0.25, 0.5], [0.25, 0.5, INF], [2.0, 0.5], [0.25, 0.5, 1.0, 2.0]]
+GROWTH_B_POOLS = [[1.0], [1.0, 0.5], [0.0, 1.0, 0.5], [INF, 1.0], [0.5]]
+# (dims, number of a-labellings sampled (None: all), pairs kept that grow >= 2 steps (None: all), pairs kept that do not)
+GROWTH_PLAN = {
+    "quick":    [((2, 2), None, None, 60), ((2, 2, 2), 500, 260, 30)],
+    "thorough": [((2, 2), None, None, 400), ((2, 2, 2), None, 2400, 200), ((3, 2), 1500, 500, 50), ((2, 3), 1500, 500, 50),
+                 ((2, 2, 2, 2), 3000, 150, 10)],
+}
+
+
+def growth_pairs(dims, n_a, n_grow, n_flat, rng):
+    """selected (a-labelling, b-labelling, steps), stratified by the number of growth steps"""
+    alabs = slot_labellings(list(dims) * 2)
+    blabs = slot_labellings(list(dims))
+    if n_a is not None and n_a < len(alabs):
+        alabs = rng.sample(alabs, n_a)
+    bm = [(bl, b_row_mask(dims, bl)) for bl in blabs]
+    by_steps: Dict[int, List[Any]] = {}
+    for al in alabs:
+        rows = a_row_masks(dims, al)
+        for bl, m in bm:
+            by_steps.setdefault(growth_steps(rows, m), []).append((al, bl))
+    chosen = []
+    flat_ = [(al, bl, s) for s in (0, 1) for al, bl in by_steps.get(s, [])]
+    chosen += flat_ if len(flat_) <= n_flat else rng.sample(flat_, n_flat)
+    deep = sorted(s for s in by_steps if s >= 2)
+    if n_grow is None:
+        for s in deep: chosen += [(al, bl, s) for al, bl in by_steps[s]]
+    elif deep:
+        share = max(1, n_grow // len(deep))                   # equal share per depth, the rest to the shallower ones
+        left = n_grow
+        for s in reversed(deep):
+            xs = by_steps[s]
+            take = xs if len(xs) <= share else rng.sample(xs, share)
+            chosen += [(al, bl, s) for al, bl in take]; left -= len(take)
+        if left > 0:
+            xs = by_steps[deep[0]]
+            chosen += [(al, bl, deep[0]) for al, bl in rng.sample(xs, min(left, len(xs)))]
+    return chosen
+
+
+def gen_pt_growth_cases(ctx: Ctx):
+    rng = ctx.rng("pt-growth")
+    th = ctx.thorough
+    k = 0
+    for dims, n_a, n_grow, n_flat in GROWTH_PLAN["thorough" if th else "quick"]:
+        tau = digits_type(dims)
+        for al, bl, steps in growth_pairs(dims, n_a, n_grow, n_flat, rng):
+            for sr in SEMIRINGS:
+                for rep in range(2 if th and len(dims) <= 3 else 1):
+                    k += 1
+                    extra = rng.choice([(), (), (), (2,), (1,)])
+                    ap = relational_pattern(dims, al, 2)
+                    bp = relational_pattern(dims, bl, 1, extra)
+                    if len(ap["pool"]) >= 2 and rng.random() < 0.25: ap["storage"] = "transposed"
+                    if sr == "Bool":
+                        avals = [1.0] if rng.random() < 0.6 else [0.0, 1.0, 1.0]
+                        bvals = [1.0] if rng.random() < 0.5 else [0.0, 1.0]
+                    else:
+                        avals = GROWTH_A_POOLS[(k // len(SEMIRINGS)) % len(GROWTH_A_POOLS)]
+                        bvals = rng.choice(GROWTH_B_POOLS)
+                    yield {"fn": "pt_solve", "sr": sr, "dtype": "float64", "type": tau, "family": f"growth{steps}",
+                           "a": real_recipe(ap, rng, avals, 0.0), "b": real_recipe(bp, rng, bvals, 0.0)}
+
+
+# ============================================================================= family: elimination orders of multi_solve
+# multi_solve eliminates the block indices in the order computed by _order_nonterminals: a depth-first search of the
+# block graph that starts at the row of the block inserted LAST, then "linking" indices first.  Whether every index is
+# eliminated / back-substituted therefore depends on the block graph (components, sinks, sources, cycles), on the
+# insertion order and on which indices have no block at all.  The family fixes small dense blocks (cheap) and
+# enumerates block graphs x DFS start rows x transpose, with b present everywhere (so a dropped contribution shows).
+ORDER_SHAPES = [[], [2], [], [2]]
+ORDER_A_POOLS = [[0.25, 0.5], [0.25, 0.25, 0.5], [0.5, 1.0], [0.0, 0.25, 0.5], [1.0, 2.0], [0.25, 0.5, INF]]
+ORDER_NAMES = ["X", "Y", "Z", "W", "V"]
+
+
+def dense_pattern(shape) -> Dict[str, Any]:
+    pool, vaxes = [], []
+    for n in shape:
+        if n == 1: vaxes.append(U_)
+        else:
+            vaxes.append(["P", len(pool)]); pool.append(n)
+    return {"pool": pool, "vaxes": vaxes, "storage": "contig"}
+
+
+def singular_component(A) -> bool:
+    """some strongly connected component C of the support graph of A (real-domain values, finite inside C) has
+       det(I - A_C) = 0, i.e. 1 is an eigenvalue of A: the systems on which the LU shortcut of RealSemiring.solve meets a
+       singular matrix in floating point (known finding real-solve-spectral-radius-one; exercised by the other families)"""
+    n = len(A)
+    edge = [[A[i][j] != 0 for j in range(n)] for i in range(n)]
+    reach = _closure(edge, n)
+    seen = set()
+    for i in range(n):
+        if i in seen: continue
+        C = [j for j in range(n) if reach[i][j] and reach[j][i]]
+        seen.update(C)
+        if len(C) == 1 and not edge[i][i]: continue
+        if any(A[p][q] == INF for p in C for q in C): continue
+        Z = [[(Fraction(1) if p == q else Fraction(0)) - Fraction(A[p][q]) for q in C] for p in C]
+        if _det(Z) == 0: return True
+    return False
+
+
+def order_structures(nidx: int, rng, th: bool):
+    """block graphs on nidx indices as lists of (row, column) positions"""
+    pairs = [(i, j) for i in range(nidx) for j in range(nidx)]
+    if nidx <= 3:
+        for st in range(1, 1 << len(pairs)):
+            yield [p for k, p in enumerate(pairs) if st >> k & 1]
+        return
+    # disjoint unions of two smaller graphs (every graph on {0,1} x every graph on the rest for nidx = 4)
+    left = [(i, j) for i in range(2) for j in range(2)]
+    right = [(i, j) for i in range(2, nidx) for j in range(2, nidx)]
+    nl, nr = 1 << len(left), 1 << len(right)
+    for sl in range(1, nl):
+        for sr_ in (range(1, nr) if nidx == 4 else [rng.randrange(1, nr) for _ in range(6 if th else 2)]):
+            yield [p for k, p in enumerate(left) if sl >> k & 1] + [p for k, p in enumerate(right) if sr_ >> k & 1]
+    # sparse graphs: chains, trees, few cycles
+    for _ in range((3000 if th else 240) if nidx == 4 else (1500 if th else 120)):
+        m = rng.randrange(2, nidx + 3)
+        yield sorted(set(rng.choice(pairs) for _ in range(m)))
+
+
+def gen_multi_order_cases(ctx: Ctx):
+    rng = ctx.rng("multi-order")
+    th = ctx.thorough
+    tier = ctx.tier
+    k = 0
+    for nidx in ((3, 4, 5) if th else (3, 4)):
+        names = ORDER_NAMES[:nidx]
+        for present in order_structures(nidx, rng, th):
+            rows = sorted(set(i for i, _ in present))
+            for start in rows:                                 # the row of the block inserted last = root of the DFS
+                k += 1
+                for t, tr in enumerate((False, True)):
+                    if th and nidx <= 4: srs = list(SEMIRINGS)
+                    else:
+                        srs = [SEMIRINGS[(k + t) % 4]]         # every (semiring, transpose) combination comes up in turn
+                        if srs[0] != "Real" and rng.random() < 0.25: srs.append("Real")
+                    for sr in srs:
+                        nm_order = list(names)
+                        if rng.random() < 0.4: rng.shuffle(nm_order)   # order of the shapes dict = order of the linking indices
+                        shapes = [[nm, rng.choice(ORDER_SHAPES)] for nm in nm_order]
+                        shp = dict((nm, sh) for nm, sh in shapes)
+                        if sr == "Bool":
+                            vals = [1.0] if rng.random() < 0.5 else [0.0, 1.0, 1.0]
+                            bvals = [1.0]
+                        else:
+                            vals = rng.choice(ORDER_A_POOLS)
+                            bvals = [1.0, 0.5]
+                        last = rng.choice([p for p in present if p[0] == start])
+                        order = [p for p in present if p != last]
+                        rng.shuffle(order)
+                        order.append(last)
+                        a = []
+                        patterned = rng.random() < 0.2
+                        for i, j in order:
+                            x, y = names[i], names[j]
+                            if patterned:
+                                types = [["n", d] for d in shp[x] + shp[y]]
+                                pat = rng.choice(conforming_patterns(types, tier))
+                            else:
+                                pat = dense_pattern(tuple(shp[x] + shp[y]))
+                            a.append([x, y, real_recipe(pat, rng, vals, 0.0)])
+                        bnames = list(names)
+                        if rng.random() < 0.15:                # some b blocks absent
+                            bnames = [nm for nm in names if rng.random() < 0.6]
+                        rng.shuffle(bnames)
+                        b = [[x, real_recipe(dense_pattern(tuple(shp[x])), rng, bvals, 0.0)] for x in bnames]
+                        fn = "multi_mv" if rng.random() < 1 / 6 else "multi_solve"
+                        case = {"fn": fn, "sr": sr, "dtype": "float64", "transpose": tr,
+                                "shapes": shapes, "family": "order", "a": a, "b": b}
+                        if sr in ("Real", "Log") and case["fn"] == "multi_solve":
+                            # this family varies the elimination order, not the conditioning: redraw the entries while
+                            # 1 is an eigenvalue of the block matrix
+                            for _ in range(4):
+                                if not singular_component(assemble(case)[3]): break
+                                for blk in a:
+                                    blk[2]["data"] = [jv(rng.choice(vals)) for _ in blk[2]["data"]]
+                            else:
+                                if singular_component(assemble(case)[3]): continue
+                        yield case
+
+
 def nontrivial(case) -> bool:
     """the system has a non-zero right-hand side and a non-zero matrix"""
     if case["fn"] == "sr_solve":
@@ -908,7 +1206,8 @@ def run_bounded(ctx: Ctx) -> Report:
                 G._PFS_CACHE[key] = pats
     selftest = oracle_selftest(ctx.rng("oracle"), 400 if ctx.thorough else 150)
     cases: List[Any] = []
-    gens = {"sr_solve": gen_sr_cases, "pt_solve": gen_pt_cases, "multi": gen_multi_cases}
+    gens = {"sr_solve": gen_sr_cases, "pt_solve": gen_pt_cases, "multi": gen_multi_cases,
+            "pt_solve_growth": gen_pt_growth_cases, "multi_order": gen_multi_order_cases}
     gen_counts = {}
     for nm, g in gens.items():
         before = len(cases)
@@ -934,16 +1233,26 @@ def run_bounded(ctx: Ctx) -> Report:
         for s in r["samples"]: samples.setdefault(s["fn"], []).append(s)
     three = "1-3 block indices: all 2 / 16 structures for 1 / 2 indices, all 512 structures for 3 indices with 3 subsets of b-blocks (all blocks + 2 sampled)" \
         if ctx.thorough else "1-2 block indices: all 2 / 16 structures x every subset of b-blocks"
+    order_fam = ("3 block indices: all 511 non-empty block graphs; 4 indices: all 225 disjoint unions of two non-empty 2-index "
+                 "graphs + seeded sparse graphs" + ("; 5 indices: seeded unions and sparse graphs" if ctx.thorough else "") +
+                 "; x every row as the row of the last-inserted block (root of the ordering DFS) x transpose; seeded order of the "
+                 "shapes dict; blocks of shape () / (2,), dense (every 5th case: seeded well-typed patterns), b on all indices "
+                 "(every 7th case: seeded subset); semirings rotate (thorough: all 4); Real/Log systems in which 1 is an "
+                 "eigenvalue of the block matrix are redrawn (known finding real-solve-spectral-radius-one)")
     bounds = {
         "sr_solve": "n=1,2: every matrix over {0,1/4,1/2,1,2,inf} (b over {0,1,1/2,inf}, vector and n x 2; quick: 2 seeded b per matrix); "
                     "n=3: scaled permutation matrices and seeded matrices by regime (nilpotent, radius <1, =1, >1, inf entries); "
                     "4 semirings; float64 (+ float32 subset for Real/Log); Bool n<=3 exhaustive",
         "pt_solve": "n in 1..4, every index type of size n (atomic, sums, 2x2 product), every conforming pattern of a from "
                     "patterns_for_shape((n,n)) x seeded conforming b of shape (n,), (n,2), (n,1), (n,1,2); defaults zero / non-zero; "
-                    "4 semirings; entries by regime",
+                    "4 semirings; entries by regime; PLUS growth family: index types that are products of 2-3 (thorough: up to 4) "
+                    "sums of units, relational patterns (every factor of the row/column axis of a and of the row axis of b a "
+                    "constant or a possibly shared physical axis: all for 2x2, seeded sample otherwise), (a,b) pairs "
+                    "stratified by the number of steps in which supp(sum_n a^n b) grows (0..4+; mostly >= 2)",
         "multi_solve": three + "; block shapes from {(), (2,), (1,2), (2,2)}; blocks = seeded well-typed patterns; entries by regime; "
-                       "4 semirings x transpose; arguments snapshot before/after",
-        "multi_mv": three + "; same blocks; 4 semirings x transpose; arguments snapshot before/after",
+                       "4 semirings x transpose; arguments snapshot before/after; PLUS elimination-order family: " + order_fam,
+        "multi_mv": three + "; same blocks; 4 semirings x transpose; arguments snapshot before/after; PLUS every 6th case of the "
+                    "elimination-order family",
     }
     rules = {
         "sr_solve": "enumeration as in the bound; non-trivial iff A and b both have a non-zero entry; distinct canonical JSON recipes",
@@ -970,7 +1279,11 @@ def run_bounded(ctx: Ctx) -> Report:
         rep.failures.append(Failure(obligation=f"{FNNAME[c['fn']]}.{f['clause']}", what=fail_what(f),
                                     replay={"module": MODULE, "func": "replay_case", "case": c},
                                     detail=f["detail"], key=k))
-    rep.extra["c09_bounded"] = {"cases": sum(n.values()), "generated": gen_counts, "failures_by_key": count,
+    fam: Dict[str, int] = {}
+    for c in cases:
+        if "family" in c: fam[c["family"]] = fam.get(c["family"], 0) + 1
+    rep.extra["c09_bounded"] = {"cases": sum(n.values()), "generated": gen_counts, "families": dict(sorted(fam.items())),
+                                "failures_by_key": count,
                                 "oracle_selftest_vs_naive_iteration": selftest,
                                 "out_of_scope(library warned index type mismatch)": oos,
                                 "out_of_scope_samples": oos_samples[:2],
